@@ -10,6 +10,7 @@ for d in seeded/*/; do
   case $n in
     C07-m2) checks="C10";;
     C09-m2) checks="C09";;
+    C07-m3) checks="C10 C13";;
   esac
   python3 lib/mutants.py run $n $checks 2>&1 | grep -v KNOWN | cut -c1-240 >> $OUT.tmp
 done
